@@ -244,7 +244,11 @@ func zeta_imp(s, sc float64) float64 {
     if float64(v) == s {
       if v < 0 {
         if (-v & 1) == 1 {
-          return -BernoulliNumber(1-v)/float64(1-v)
+          if 1-v <= 258 {
+            return -BernoulliNumber(1-v)/float64(1-v)
+          }
+          // B_n overflows for n > 258 (and the exact recursion is O(n^2)):
+          // use the reflection formula below
         } else {
           return 0.0
         }
